@@ -175,6 +175,7 @@ fn chan_idx(chans: &[ChannelId], c: &ChannelId) -> usize {
 
 /// Delivers all pending messages; records what goes to / comes from the recipient (node 3).
 fn pump(nodes: &[Node], chans: &[ChannelId], obs: &mut Obs) {
+	let mut idle = 0;
 	for _round in 0..200 {
 		let mut progressed = false;
 		for i in 0..nodes.len() {
@@ -252,7 +253,9 @@ fn pump(nodes: &[Node], chans: &[ChannelId], obs: &mut Obs) {
 			}
 			nodes[i].chain_monitor.added_monitors.lock().unwrap().clear();
 		}
-		if !progressed {
+		// a failure queued by process_pending_htlc_forwards is only sent by the next call
+		idle = if progressed { 0 } else { idle + 1 };
+		if idle >= 3 {
 			break;
 		}
 	}
@@ -306,7 +309,7 @@ fn mpp_mode(style: u64) {
 					.unwrap();
 				hash = h;
 				secret = s;
-				preimage = nodes[3].node.get_payment_preimage(h, s).ok();
+				preimage = nodes[3].node.get_payment_preimage_decrypt_metadata(h, s, None).ok();
 			},
 			"part" => {
 				let via: usize = t[1].parse().unwrap();
@@ -326,10 +329,10 @@ fn mpp_mode(style: u64) {
 					.find(|c| c.counterparty.node_id == nodes[via].node.get_our_node_id())
 					.unwrap();
 				let scorer = lightning::util::test_utils::TestScorer::new();
-				let route = lightning::routing::router::get_route(
+				let route = lightning::routing::router::find_route(
 					&nodes[0].node.get_our_node_id(),
 					&rp,
-					&nodes[0].network_graph.read_only(),
+					&nodes[0].network_graph,
 					Some(&[&first]),
 					nodes[0].logger,
 					&scorer,
